@@ -283,12 +283,14 @@ def verify_to_dict(cls, fn_ast, namespace, p: PPoint, levels, passed, timeout_ms
     self_c = eng.fresh("self")
     attrf = {}
 
+    self_terms = [self_c]
+
     def tm_attr(ex, base, name, node, st, ctx):
-        if isinstance(base, Tm) and z3.eq(base.t, self_c):
+        if isinstance(base, Tm) and any(z3.eq(base.t, t) for t in self_terms):
             if name == "__class__":
                 return Ob(cls)
             f = eng.func(f"attr!{name}", eng.V, eng.V)
-            return Tm(f(self_c))
+            return Tm(f(base.t))
         return None
 
     import inspect as _inspect
@@ -297,9 +299,9 @@ def verify_to_dict(cls, fn_ast, namespace, p: PPoint, levels, passed, timeout_ms
 
     def self_method(ex, recv, name, args, kw, node, st, ctx):
         """self.<helper installed on the class>(...): custom serialization functions"""
-        if not (isinstance(recv, Tm) and z3.eq(recv.t, self_c)) or name in ex.inline or name in fieldnames:
+        if not (isinstance(recv, Tm) and any(z3.eq(recv.t, t) for t in self_terms)) or name in ex.inline or name in fieldnames:
             return None
-        if name.startswith("__mashumaro_"):
+        if name.startswith("__mashumaro_") or name in ("__pre_serialize__", "__post_serialize__"):
             return None
         try:
             raw = _inspect.getattr_static(cls, name)
@@ -318,6 +320,7 @@ def verify_to_dict(cls, fn_ast, namespace, p: PPoint, levels, passed, timeout_ms
         ex.inline = inline
     spec_hyps = []
     # preconditions on a conforming instance: hole serialisation and isnan do not raise
+    ex.ghost_calls = {("meth", "__pre_serialize__"): "pre", ("meth", "__post_serialize__"): "post"}
     ex.assume_hasattr = not getattr(p, "conforming_classes", False)
     if getattr(p, "conforming_classes", False):
         # union packing: which member's packer runs depends on the class of the value; a method call
@@ -327,6 +330,8 @@ def verify_to_dict(cls, fn_ast, namespace, p: PPoint, levels, passed, timeout_ms
     ex.nonraising.add(("meth", "copy"))
     ex.nonraising.add(("meth", "_serialize"))
     ex.nonraising.add(("meth", "__mashumaro_to_dict__"))
+    ex.nonraising.add(("meth", "__pre_serialize__"))  # A2
+    ex.nonraising.add(("meth", "__post_serialize__"))  # A2
     if not getattr(p, "conforming_classes", False):
         ex.nonraising_prefixes = ("__mashumaro_to_dict",)
     if unwrap is not None and getattr(unwrap, "encoder", None) is not None:
@@ -343,6 +348,16 @@ def verify_to_dict(cls, fn_ast, namespace, p: PPoint, levels, passed, timeout_ms
     if "dialect" in params:
         args["dialect"] = Ob(getattr(p, "dialect_value", None))
     pre = [eng.typeof(self_c) == eng.const(cls)]
+    ex.flagvals = flagvals
+    hooks_decl = getattr(p, "ser_hooks", ())
+    self_in = self_c
+    if "pre" in hooks_decl:
+        # __pre_serialize__ returns the instance that is serialized (A2: a conforming instance of the class)
+        kwh = [("context", Tm(flagvals["context"]) if "context" in flagvals else Ob(None))] if getattr(p, "hook_context", False) else []
+        self_eff = eng.term(Call(("meth", "__pre_serialize__"), "meth___pre_serialize__", [Tm(self_c)], kwh))
+        self_terms.append(self_eff)
+        pre.append(eng.typeof(self_eff) == eng.const(cls))
+        self_c = self_eff
     # conforming instance: whatever a packer iterates is iterable
     _v = z3.Const("v!iter", eng.V)
     pre.append(z3.ForAll([_v], eng.iterable(_v), patterns=[eng.iterable(_v)]))
@@ -362,6 +377,43 @@ def verify_to_dict(cls, fn_ast, namespace, p: PPoint, levels, passed, timeout_ms
                 a = eng.func(f"attr!{fv.name}", eng.V, eng.V)(self_c)
                 pre.append(z3.Or(*[eng.typeof(a) == eng.const(k) for k in ks]))
     paths = ex.run(fn_ast, args, pc=pre)
+    hook_problems = {}
+    if hooks_decl or getattr(p, "count_hooks", False):
+        for path in paths:
+            if path.kind != "return":
+                continue
+            cnt = {"pre": 0, "post": 0}
+            pr = []
+            for g in path.ghosts:
+                if g[0] == "call" and g[1] in cnt:
+                    if not z3.is_true(z3.simplify(g[4])):
+                        pr.append(f"{g[1]} hook called conditionally")
+                    cnt[g[1]] += 1
+            for h in ("pre", "post"):
+                want = 1 if h in hooks_decl else 0
+                if cnt[h] != want:
+                    pr.append(f"__{h}_serialize__ called {cnt[h]} time(s), expected {want}")
+            if "post" in hooks_decl:
+                v = path.value
+                inner_wrap = None
+                if unwrap is not None:
+                    v, prob0 = unwrap(v, path, eng)
+                    if prob0:
+                        pr.append(prob0)
+                ok = isinstance(v, Call) and v.key == ("meth", "__post_serialize__") and len(v.args) == 2 and isinstance(v.args[0], Tm) and z3.eq(v.args[0].t, self_c)
+                if ok:
+                    wantkw = ["context"] if getattr(p, "hook_context", False) else []
+                    if [k for k, _ in v.kw] != wantkw:
+                        pr.append(f"__post_serialize__ keyword arguments {[k for k, _ in v.kw]}, expected {wantkw}")
+                    elif wantkw and not (isinstance(v.kw[0][1], Tm) and "context" in flagvals and z3.eq(v.kw[0][1].t, flagvals["context"])) and not (isinstance(v.kw[0][1], Ob) and "context" not in flagvals):
+                        pr.append("__post_serialize__ does not receive the call's context unchanged")
+                    path.value = v.args[1]
+                else:
+                    pr.append(f"the result is not __post_serialize__ applied to the produced mapping: {v!r}"[:200])
+            if pr:
+                hook_problems[id(path)] = "; ".join(pr)
+        if "post" in hooks_decl:
+            unwrap = None
     if unwrap is not None:
         # format methods: the result must be encoder(<mapping>, <declared encoder kwargs>)
         for path in paths:
@@ -451,7 +503,10 @@ def verify_to_dict(cls, fn_ast, namespace, p: PPoint, levels, passed, timeout_ms
     verdicts = []
     for i, path in enumerate(paths):
         detail = list(problems)
-        if getattr(path, "unwrap_problem", None):
+        if id(path) in hook_problems:
+            detail.append(hook_problems[id(path)])
+            goal = z3.BoolVal(False)
+        elif getattr(path, "unwrap_problem", None):
             detail.append(path.unwrap_problem)
             goal = z3.BoolVal(False)
         else:
